@@ -688,6 +688,11 @@ def run(ctx):
         run_mc(ctx, thorough)
     gen_and_drive(ctx, thorough)
     drive_big(ctx, thorough)
+    # aws_byte_buf_init_from_file[_with_size_hint]: the initialiser that fills a buffer from a file (spec/OsFacade/File.tla
+    # BufFromFile; the tree of files is the adapter's own ground truth), including refusals after the buffer was allocated
+    # (a directory) and files above 128 MiB read with hints around their size
+    from checks import x04
+    x04.reader_family(ctx, thorough)
 
 
 # ---- large sizes (spec/ByteBuf/BigBuf.tla, harness/bytebuf_big_adapter.c)
@@ -872,3 +877,7 @@ def gen_and_drive(ctx, thorough):
     ctx.add_sample({"script": execs[-npar - 1][:16]})
     exe = prepare(ctx)      # the shared build directory may have been pruned while TLC was running
     pipeline.drive_and_validate(ctx, exe, execs, SPEC_DIR, "ByteBufTrace", "Trace.cfg", label="bytebuf")
+    # the process-locale family (lib/vlib/locale8.py): a slice of the same executions in a process that called setlocale()
+    # (case-insensitive comparison, trimming by predicate, number parsing)
+    from vlib import locale8
+    locale8.rerun(ctx, exe, execs[::5], SPEC_DIR, "ByteBufTrace", "Trace.cfg", "bytebuf", names=("xx_XX", "yy_YY"))
